@@ -305,6 +305,98 @@ def encodeLoop (step : Step) (n : Nat) : Nat → Nat → Outcome (List UInt8) ×
 def encodeDl (step : Step) (n : Nat) (fuel : Nat) : Outcome (List UInt8) × List Alloc :=
   if n = 0 then (.ok [], []) else encodeLoop step n fuel n
 
+/-! ## EUC-TW as glibc's `euc-tw.c` parses and produces it, over an abstract CNS 11643 table
+
+The tool delegates EUC-TW to iconv; this is the structure of the encoding (which bytes form a unit, which unit a character
+is written as), with the character tables as parameters.  `cns plane row col` takes the raw row/column bytes (0xA1..0xFE);
+`inv ch` is the position the encoder chooses for a character. -/
+
+abbrev CnsTable := Nat → Nat → Nat → Option Nat
+abbrev CnsInverse := Nat → Option (Nat × Nat × Nat)
+
+/-- what stands at the head of a byte string -/
+inductive EucUnit where
+  | done                                             -- end of input
+  | ascii (c : Nat)
+  | two (row col : Nat) (ch : Nat)                   -- code set 1: plane 1
+  | four (plane row col : Nat) (ch : Nat)            -- code set 2: 8E, 0xA0+plane, row, col
+  | illegal                                          -- EILSEQ
+  | incomplete                                       -- EINVAL
+  deriving DecidableEq, Repr
+
+def eucTwUnit (cns : CnsTable) : List UInt8 → EucUnit
+  | [] => .done
+  | b :: rest =>
+    if b.toNat ≤ 0x7F then .ascii b.toNat
+    else if (b.toNat ≤ 0xA0 ∧ b.toNat ≠ 0x8E) ∨ b.toNat > 0xFE then .illegal
+    else match rest with
+      | [] => .incomplete
+      | b2 :: rest2 =>
+        if b2.toNat < 0xA1 ∨ b2.toNat = 0xFF then .illegal
+        else if b.toNat = 0x8E then
+          -- `cns11643_to_ucs4`: the plane byte is looked at before the number of bytes available
+          if b2.toNat > 0xB0 then .illegal
+          else match rest2 with
+          | r :: c :: _ =>
+            match cns (b2.toNat - 0xA0) r.toNat c.toNat with
+            | some ch => .four (b2.toNat - 0xA0) r.toNat c.toNat ch
+            | none => .illegal
+          | _ => .incomplete
+        else
+          match cns 1 b.toNat b2.toNat with
+          | some ch => .two b.toNat b2.toNat ch
+          | none => .illegal
+
+/-- decoding: the text, or the offset of the offending unit and whether it is merely incomplete -/
+def eucTwDecodeLoop (cns : CnsTable) : Nat → Nat → List UInt8 → Except (Nat × Bool) (List Nat)
+  | 0, i, bs => if bs.isEmpty then .ok [] else .error (i, false)
+  | fuel + 1, i, bs =>
+    match eucTwUnit cns bs with
+    | .done => .ok []
+    | .illegal => .error (i, false)
+    | .incomplete => .error (i, true)
+    | .ascii c => (eucTwDecodeLoop cns fuel (i + 1) (bs.drop 1)).map (c :: ·)
+    | .two _ _ ch => (eucTwDecodeLoop cns fuel (i + 2) (bs.drop 2)).map (ch :: ·)
+    | .four _ _ _ ch => (eucTwDecodeLoop cns fuel (i + 4) (bs.drop 4)).map (ch :: ·)
+
+def eucTwDecode (cns : CnsTable) (bs : List UInt8) : Except (Nat × Bool) (List Nat) :=
+  eucTwDecodeLoop cns bs.length 0 bs
+
+/-- the bytes a character is written as -/
+def eucTwEncodeChar (inv : CnsInverse) (c : Nat) : Option (List UInt8) :=
+  if c ≤ 0x7F then some [UInt8.ofNat c]
+  else match inv c with
+    | none => none
+    | some (p, r, k) =>
+      if p = 1 then some [UInt8.ofNat r, UInt8.ofNat k]
+      else some [0x8E, UInt8.ofNat (0xA0 + p), UInt8.ofNat r, UInt8.ofNat k]
+
+/-- encoding: the bytes, or the index of the first character without a code -/
+def eucTwEncodeFrom (inv : CnsInverse) (i : Nat) : List Nat → Except Nat (List UInt8)
+  | [] => .ok []
+  | c :: cs =>
+    match eucTwEncodeChar inv c with
+    | none => .error i
+    | some bs => (eucTwEncodeFrom inv (i + 1) cs).map (bs ++ ·)
+
+def eucTwEncode (inv : CnsInverse) (cs : List Nat) : Except Nat (List UInt8) := eucTwEncodeFrom inv 0 cs
+
+/-- a unit is the form the encoder itself writes for its character -/
+def EucUnit.canonical (inv : CnsInverse) : EucUnit → Bool
+  | .two r c ch => ch > 0x7F && inv ch == some (1, r, c)
+  | .four p r c ch => ch > 0x7F && p != 1 && inv ch == some (p, r, c)
+  | _ => true
+
+/-- every unit of the byte string is canonical -/
+def eucTwCanonical (cns : CnsTable) (inv : CnsInverse) : Nat → List UInt8 → Bool
+  | 0, _ => true
+  | fuel + 1, bs =>
+    match eucTwUnit cns bs with
+    | .ascii _ => eucTwCanonical cns inv fuel (bs.drop 1)
+    | .two r c ch => (EucUnit.two r c ch).canonical inv && eucTwCanonical cns inv fuel (bs.drop 2)
+    | .four p r c ch => (EucUnit.four p r c ch).canonical inv && eucTwCanonical cns inv fuel (bs.drop 4)
+    | _ => true
+
 /-! ## `ling._get_characters` and `Language.get_unrepresentable_characters` -/
 
 /-- `str.isspace()` code points (what `str.split()` splits on) -/
